@@ -363,6 +363,19 @@ def check_C17(chk, tier, seed):
     chk.count("many-short-lived-threads")
     if not o.startswith("THREADS n=300 bad=0"):
         chk.violation("fixed-size values were not decoded / encoded correctly on every one of 300 short-lived threads: " + short(o, 200), dict(case="THREADS 300", impl=short(o)))
+    # a sample of the values once more in a process that sees ONE cpu (`taskset -c 0`: a one-vCPU machine, a container with a quota)
+    import shutil as _sh
+    if _sh.which("taskset"):
+        sample = [c for c in cases if c.startswith(("LEAFDEC ", "LEAFENC "))][::97]
+        one = core.run_sharded(["taskset", "-c", "0", eng.harness, "codec"], eng.prelude, sample, shards=1, timeout=300)
+        ref1 = dict(zip(cases, impl))
+        for c, o in zip(sample, one):
+            chk.case("1cpu " + c, True)
+            chk.validated += 1
+            chk.count("one-cpu-process")
+            if o != ref1[c]:
+                chk.violation("a value was decoded / encoded differently (or not at all) in a process restricted to one CPU", dict(case=c, env="taskset -c 0", impl=short(o), with_all_cpus=short(ref1[c])))
+                break
     # the first values a process handles, on a thread with a small stack (160 KiB)
     o = core.run_sharded([eng.harness, "codec"], [], ["SMALLSTACK"], shards=1, timeout=300)[0]
     chk.case("SMALLSTACK", True)
